@@ -63,8 +63,10 @@ Definition just (elog : list ev) (pre : list clk) (c : clk) : Prop :=
        exists k' start' d' rd', In (KAtt u v k' start' d' rd') pre /\ start = tadd start' d')
   | KAtt u v k start d true =>
       In v (gadj g u) /\
-      exists pre' start' d' sv dv, pre = pre' ++ [KAtt u v k start' d' false] /\ tadd start' d' < start /\
-        In (KRec v sv dv) pre /\ start = tadd sv dv /\ sv <= tadd start' d'
+      (exists pre' start' d' sv dv, pre = pre' ++ [KAtt u v k start' d' false] /\ tadd start' d' < start /\
+        In (KRec v sv dv) pre /\ start = tadd sv dv /\ sv <= tadd start' d') /\
+      (* rec_time[v] < rec_time[u] *)
+      ((exists su du, In (KRec u su du) pre /\ start < tadd su du) \/ rec_rate g gamma u == 0)
   end.
 
 Definition clock_ok (elog : list ev) (cs : list clk) : Prop :=
@@ -118,6 +120,7 @@ Record CExtra (ex : node -> node -> Prop) (acc : list clk) (clock : Q) (s : mst)
              exists r, ms_rec s u = Some r /\ (xlt r tmax = false \/ exists c, In (r, c, MRec u) (q_items (ms_q s)));
   c_RI : forall v r, ms_rec s v = Some r -> clock < r ->
            exists sv dv, In (KRec v sv dv) acc /\ r = tadd sv dv /\ sv <= clock;
+  c_inf : forall u, ms_stat s u = stI -> ms_rec s u = None -> rec_rate g gamma u == 0;
   c_q : forall t c u v, In (t, c, MTrans (Some u) v) (q_items (ms_q s)) ->
           exists k start d rd, In (KAtt u v k start d rd) acc /\ t = tadd start d;
   c_just : clock_ok (elog_of s) acc;
@@ -162,7 +165,7 @@ Lemma fin_state_extra : forall ex acc cs clock s src tgt t,
   (0 < rate src tgt -> PDB (acc ++ cs) (fin_state src tgt s t) src tgt) ->
   CExtra (fun a b => ex a b /\ ~ (a = src /\ b = tgt)) (acc ++ cs) clock (fin_state src tgt s t).
 Proof.
-  intros ex acc cs clock s src tgt t [Hv Hq HR Hcq Hj Hci] Hct Hrec Hjust Hpair.
+  intros ex acc cs clock s src tgt t [Hv Hq HR Hinf Hcq Hj Hci] Hct Hrec Hjust Hpair.
   assert (Hother : forall s', (s' = s \/ s' = set_q s (q_add tmax (ms_q s) t (MTrans (Some src) tgt))) ->
             forall u v, PDB acc s u v -> PDB (acc ++ cs) s' u v).
   { intros s' [->| ->] u v H; [apply PDB_acc; exact H|apply PDB_qadd; exact H]. }
@@ -178,6 +181,7 @@ Proof.
       destruct Hcase as [E'|E']; rewrite E'; [exact Hin|]. cbn [set_q ms_q]. apply In_q_add. left. exact Hin.
   - intros v r Er Hr. assert (Er' : ms_rec s v = Some r) by (destruct Hcase as [E|E]; rewrite E in Er; exact Er).
     destruct (HR v r Er' Hr) as [sv [dv [A B]]]. exists sv, dv. split; [apply in_or_app; left; exact A|exact B].
+  - intros u Hu Er. apply Hinf; destruct Hcase as [E|E]; rewrite E in Hu, Er; assumption.
   - intros t0 c0 u v Hin. destruct Hcase as [E|E]; rewrite E in Hin.
     + destruct (Hcq t0 c0 u v Hin) as [k [st [d [rd [A B]]]]]. exists k, st, d, rd. split; [apply in_or_app; left; exact A|exact B].
     + cbn [set_q ms_q] in Hin. apply In_q_add in Hin. destruct Hin as [Hin|[_ Ex]].
@@ -206,19 +210,19 @@ Qed.
 
 Lemma fn_rel_extra : forall ex acc clock time src tgt s s' cs,
   fn_rel time src tgt s s' cs -> CExtra ex acc clock s -> clock <= time -> In tgt (gadj g src) ->
-  origin acc s time src tgt ->
+  ms_stat s src = stI -> origin acc s time src tgt ->
   CExtra (fun a b => ex a b /\ ~ (a = src /\ b = tgt)) (acc ++ cs) clock s'.
 Proof.
-  intros ex acc clock time src tgt s s' cs H Hc Hct Ha Hor.
+  intros ex acc clock time src tgt s s' cs H Hc Hct Ha HsI Hor.
   destruct H as [G|G Hz|d G Hr Hd Hre|d r d2 G Hr Hd Er Hlt Hd2].
   - (* guard fails: blocked *)
-    rewrite app_nil_r. destruct Hc as [Hv Hq HR Hcq Hj Hci]. constructor; try assumption.
+    rewrite app_nil_r. destruct Hc as [Hv Hq HR Hinf Hcq Hj Hci]. constructor; try assumption.
     intros u v Hn Hu Hin Hr. destruct (N.eq_dec u src) as [Eu|Eu]; [destruct (N.eq_dec v tgt) as [Ev|Ev]|].
     + subst u v. right. right. exact G.
     + apply Hci; try assumption. intro Hex. apply Hn. split; [exact Hex|]. intros [_ K]. contradiction.
     + apply Hci; try assumption. intro Hex. apply Hn. split; [exact Hex|]. intros [K _]. contradiction.
   - (* rate zero: nothing to set *)
-    rewrite app_nil_r. destruct Hc as [Hv Hq HR Hcq Hj Hci]. constructor; try assumption.
+    rewrite app_nil_r. destruct Hc as [Hv Hq HR Hinf Hcq Hj Hci]. constructor; try assumption.
     intros u v Hn Hu Hin Hr. destruct (N.eq_dec u src) as [Eu|Eu]; [destruct (N.eq_dec v tgt) as [Ev|Ev]|].
     + subst u v. exfalso. rewrite Hz in Hr. lra.
     + apply Hci; try assumption. intro Hex. apply Hn. split; [exact Hex|]. intros [_ K]. contradiction.
@@ -238,16 +242,21 @@ Proof.
       apply clock_ok_app; [apply (c_just _ _ _ _ Hc)|]. intros pre c post E.
       destruct pre as [|x [|y pre]].
       * injection E as <- _. rewrite app_nil_r. cbn [just]. split; [exact Ha|exact Hor].
-      * injection E as <- <- _. cbn [just]. split; [exact Ha|].
-        exists acc, time, d, sv, dv. split; [reflexivity|]. split; [exact Hlt|]. split; [apply in_or_app; left; exact K1|].
-        split; [exact K2|]. rewrite tadd_eq. lra.
+      * injection E as <- <- _. cbn [just]. split; [exact Ha|]. split.
+        -- exists acc, time, d, sv, dv. split; [reflexivity|]. split; [exact Hlt|]. split; [apply in_or_app; left; exact K1|].
+           split; [exact K2|]. rewrite tadd_eq. lra.
+        -- destruct (ms_rec s src) as [ru|] eqn:Eu.
+           ++ rewrite Er in G. cbn [xtlt] in G. apply Qltb_true in G.
+              destruct (c_RI _ _ _ _ Hc src ru Eu) as [su [du [L1 [L2 _]]]]; [lra|].
+              left. exists su, du. split; [apply in_or_app; left; exact L1|]. rewrite <- L2. exact G.
+           ++ right. apply (c_inf _ _ _ _ Hc src HsI Eu).
       * destruct pre; discriminate E.
     + intros _. apply (fin_state_pair _ s src tgt (per s src) r d2 true); [apply in_or_app; right; right; left; reflexivity|reflexivity].
 Qed.
 
 Lemma CExtra_weaken : forall (ex1 ex2 : node -> node -> Prop) acc clock s,
   (forall a b, ex1 a b -> ex2 a b) -> CExtra ex1 acc clock s -> CExtra ex2 acc clock s.
-Proof. intros ex1 ex2 acc clock s H [A B C D E F]. constructor; try assumption. eapply CIx_weaken; eassumption. Qed.
+Proof. intros ex1 ex2 acc clock s H [A B C D0 D E F]. constructor; try assumption. eapply CIx_weaken; eassumption. Qed.
 
 Lemma fn_rel_qonly : forall time src tgt s s' cs, fn_rel time src tgt s s' cs -> qonly s s'.
 Proof.
@@ -260,18 +269,20 @@ Qed.
 Lemma fna_rel_extra : forall time u nbrs s s' cs, fna_rel time u nbrs s s' cs ->
   forall (ex : node -> node -> Prop) acc clock,
   CExtra (fun a b => ex a b \/ (a = u /\ In b nbrs)) acc clock s -> clock <= time ->
-  (forall v, In v nbrs -> In v (gadj g u)) -> In (time, u, stI) (elog_of s) ->
+  (forall v, In v nbrs -> In v (gadj g u)) -> In (time, u, stI) (elog_of s) -> ms_stat s u = stI ->
   CExtra ex (acc ++ cs) clock s'.
 Proof.
-  intros time u nbrs s s' cs H. induction H as [s|v rest s s1 s2 c1 c2 H1 H2 IH]; intros ex acc clock Hc Hct Hn Hlog.
+  intros time u nbrs s s' cs H. induction H as [s|v rest s s1 s2 c1 c2 H1 H2 IH]; intros ex acc clock Hc Hct Hn Hlog HuI.
   - rewrite app_nil_r. eapply CExtra_weaken; [|exact Hc]. intros a b [E|[_ []]]. exact E.
-  - rewrite app_assoc. apply IH; [|exact Hct|intros w Hw; apply Hn; right; exact Hw|].
+  - rewrite app_assoc. apply IH; [|exact Hct|intros w Hw; apply Hn; right; exact Hw| |].
     + eapply CExtra_weaken; [|apply (fn_rel_extra _ acc clock time u v s s1 c1 H1 Hc Hct)].
       * intros a b [[E|[Ea [Eb|Eb]]] Hne]; [left; exact E| |right; split; assumption].
         exfalso. apply Hne. split; [exact Ea|symmetry; exact Eb].
       * apply Hn. left. reflexivity.
+      * exact HuI.
       * left. exact Hlog.
     + destruct (fn_rel_qonly _ _ _ _ _ _ H1) as [_ [_ E]]. unfold elog_of. rewrite E. exact Hlog.
+    + destruct (fn_rel_qonly _ _ _ _ _ _ H1) as [E _]. rewrite E. exact HuI.
 Qed.
 
 Lemma xtlt_xlt : forall r tm, xtlt (Some r) tm = xlt r tm.
@@ -293,7 +304,7 @@ Lemma inf_extra : forall (ex : node -> node -> Prop) acc t src tgt s0 rt c0,
 Proof.
   intros ex acc t src tgt s0 rt c0 Hc Hf HS Hrd.
   pose proof (recI ex acc t s0 Hc Hf) as HrecI.
-  destruct Hc as [Hv Hq HR Hcq Hj Hci].
+  destruct Hc as [Hv Hq HR Hinf Hcq Hj Hci].
   assert (Hqin : forall x, In x (q_items (ms_q s0)) -> In x (q_items (ms_q (inf_state t src tgt s0 rt)))).
   { intros x Hx. cbn [EventSISRel.inf_state ms_q]. destruct rt as [r|]; [|exact Hx].
     destruct (xtlt (Some r) tmax); [|exact Hx]. apply In_q_add. left. exact Hx. }
@@ -311,6 +322,9 @@ Proof.
       exists t, d. split; [apply in_or_app; right; left; reflexivity|]. split; [reflexivity|lra].
     + rewrite fupdN_other in Er by exact Ne.
       destruct (HR v r Er Hr) as [sv [dv [A B]]]. exists sv, dv. split; [apply in_or_app; left; exact A|exact B].
+  - intros u Hu Er. cbn [EventSISRel.inf_state ms_stat ms_rec] in Hu, Er. destruct (N.eq_dec u tgt) as [E|Ne].
+    + subst u. rewrite fupdN_same in Er. destruct Hrd as [d Hpos Hd|Hz]; [discriminate Er|exact Hz].
+    + rewrite fupdN_other in Hu by exact Ne. rewrite fupdN_other in Er by exact Ne. apply Hinf; assumption.
   - intros t0 c0' u v Hin. cbn [EventSISRel.inf_state ms_q] in Hin.
     assert (Hold : In (t0, c0', MTrans (Some u) v) (q_items (ms_q s0))).
     { destruct rt as [r|]; [|exact Hin]. destruct (xtlt (Some r) tmax); [|exact Hin].
@@ -346,13 +360,14 @@ Lemma pop_tr_extra : forall acc clock s t c src tgt rest,
   q_items (ms_q s) = (t, c, MTrans src tgt) :: rest ->
   CExtra (fun a b => src = Some a /\ b = tgt) acc t (pop_state s rest).
 Proof.
-  intros acc clock s t c src tgt rest [Hv Hq HR Hcq Hj Hci] Hct Hx Eq. constructor.
+  intros acc clock s t c src tgt rest [Hv Hq HR Hinf Hcq Hj Hci] Hct Hx Eq. constructor.
   - exact Hx.
   - intros u Hu. cbn [pop_state set_q ms_stat ms_rec ms_q q_items] in *.
     destruct (Hq u Hu) as [E|[r [E [V|[c' Hin]]]]]; [left; exact E|right; exists r; split; [exact E|left; exact V]|].
     right. exists r. split; [exact E|]. right. exists c'. rewrite Eq in Hin. destruct Hin as [K|K]; [discriminate K|exact K].
   - intros v r Er Hr. cbn [pop_state set_q ms_rec] in Er. destruct (HR v r Er) as [sv [dv [A [B C]]]]; [lra|].
     exists sv, dv. split; [exact A|]. split; [exact B|lra].
+  - intros u Hu Er. cbn [pop_state set_q ms_stat ms_rec] in Hu, Er. apply Hinf; assumption.
   - intros t0 c0 u v Hin. cbn [pop_state set_q ms_q q_items] in Hin. apply (Hcq t0 c0 u v). rewrite Eq. right. exact Hin.
   - exact Hj.
   - intros a b Hn Ha Hin Hr. cbn [pop_state set_q ms_stat] in Ha.
@@ -369,7 +384,7 @@ Lemma rec_extra : forall acc clock s t c v rest,
   q_items (ms_q s) = (t, c, MRec v) :: rest ->
   CExtra (fun _ _ => False) acc t (m_recover t v (pop_state s rest)).
 Proof.
-  intros acc clock s t c v rest [Hv Hq HR Hcq Hj Hci] Hct Hx Eq. constructor.
+  intros acc clock s t c v rest [Hv Hq HR Hinf Hcq Hj Hci] Hct Hx Eq. constructor.
   - exact Hx.
   - intros u Hu. cbn [m_recover pop_state set_q ms_stat ms_rec ms_q q_items] in *.
     destruct (N.eq_dec u v) as [E|Ne]; [subst u; rewrite fupdN_same in Hu; discriminate Hu|]. rewrite fupdN_other in Hu by exact Ne.
@@ -378,6 +393,9 @@ Proof.
     exfalso. injection K as _ _ K. apply Ne. symmetry. exact K.
   - intros w r Er Hr. cbn [m_recover pop_state set_q ms_rec] in Er. destruct (HR w r Er) as [sv [dv [A [B C]]]]; [lra|].
     exists sv, dv. split; [exact A|]. split; [exact B|lra].
+  - intros u Hu Er. cbn [m_recover pop_state set_q ms_stat ms_rec] in Hu, Er.
+    destruct (N.eq_dec u v) as [E|Ne]; [subst u; rewrite fupdN_same in Hu; discriminate Hu|]. rewrite fupdN_other in Hu by exact Ne.
+    apply Hinf; assumption.
   - intros t0 c0 u w Hin. cbn [m_recover pop_state set_q ms_q q_items] in Hin. apply (Hcq t0 c0 u w). rewrite Eq. right. exact Hin.
   - unfold elog_of. cbn [m_recover pop_state set_q ms_log log_rec l_elog]. eapply clock_ok_mono; [|exact Hj]. intros x Hx'. right. exact Hx'.
   - intros a b _ Ha Hin Hr. cbn [m_recover pop_state set_q ms_stat] in Ha.
@@ -391,14 +409,14 @@ Qed.
 
 Lemma after_extra : forall acc clock time src tgt s s' cs,
   after_rel time src tgt s s' cs -> CExtra (fun a b => src = Some a /\ b = tgt) acc clock s -> clock <= time ->
-  (forall u, src = Some u -> In tgt (gadj g u) /\
+  (forall u, src = Some u -> In tgt (gadj g u) /\ ms_stat s u = stI /\
      exists k st d rd, In (KAtt u tgt k st d rd) acc /\ time = tadd st d) ->
   CExtra (fun _ _ => False) (acc ++ cs) clock s'.
 Proof.
   intros acc clock time src tgt s s' cs H Hc Hct Hsrc. destruct H as [E|u s' c E H].
   - rewrite app_nil_r. eapply CExtra_weaken; [|exact Hc]. intros a b [K _]. rewrite E in K. discriminate K.
-  - destruct (Hsrc u E) as [Ha Hor].
-    eapply CExtra_weaken; [|apply (fn_rel_extra _ acc clock time u tgt s s' c H Hc Hct Ha); right; exact Hor].
+  - destruct (Hsrc u E) as [Ha [HuI Hor]].
+    eapply CExtra_weaken; [|apply (fn_rel_extra _ acc clock time u tgt s s' c H Hc Hct Ha HuI); right; exact Hor].
     intros a b [[K1 K2] Hne]. apply Hne. rewrite E in K1. injection K1 as <-. split; [reflexivity|exact K2].
 Qed.
 
@@ -407,7 +425,8 @@ Proof. intros. apply in_or_app. left. assumption. Qed.
 
 Lemma mt_extra : forall acc t src tgt s0 s1 c1,
   FCore t s0 -> CExtra (fun a b => src = Some a /\ b = tgt) acc t s0 ->
-  (forall u, src = Some u -> In tgt (gadj g u) /\ exists k st d rd, In (KAtt u tgt k st d rd) acc /\ t = tadd st d) ->
+  (forall u, src = Some u -> In tgt (gadj g u) /\ ms_stat s0 u = stI /\
+     exists k st d rd, In (KAtt u tgt k st d rd) acc /\ t = tadd st d) ->
   mt_rel t src tgt s0 s1 c1 -> CExtra (fun _ _ => False) (acc ++ c1) t s1.
 Proof.
   intros acc t src tgt s0 s1 c1 Hf Hc Hsrc H.
@@ -415,10 +434,15 @@ Proof.
   - apply (after_extra acc t t src tgt s0 s' c Haf Hc); [lra|exact Hsrc].
   - pose proof (inf_extra _ acc t src tgt s0 rt c0 Hc Hf HS Hrd) as H1.
     pose proof (fna_rel_extra t tgt (gadj g tgt) _ s1 c1 Hfna _ (acc ++ c0) t H1) as H2.
+    assert (HtI : ms_stat (inf_state t src tgt s0 rt) tgt = stI) by (cbn [EventSISRel.inf_state ms_stat]; apply fupdN_same).
     rewrite !app_assoc. apply (after_extra _ t t src tgt s1 s2 c2 Haf); [|lra|].
-    + apply H2; [lra|intros v Hv; exact Hv|]. unfold elog_of. cbn [EventSISRel.inf_state ms_log log_inf l_elog]. left. reflexivity.
-    + intros u E. destruct (Hsrc u E) as [A [k [st [d [rd [B C]]]]]]. split; [exact A|].
-      exists k, st, d, rd. split; [|exact C]. apply In_app_l. apply In_app_l. exact B.
+    + apply H2; [lra|intros v Hv; exact Hv| |exact HtI]. unfold elog_of. cbn [EventSISRel.inf_state ms_log log_inf l_elog]. left. reflexivity.
+    + intros u E. destruct (Hsrc u E) as [A [A2 [k [st [d [rd [B C]]]]]]]. split; [exact A|]. split.
+      * assert (Hq : qonly (inf_state t src tgt s0 rt) s1).
+        { clear -Hfna. induction Hfna as [s|v rest s sa sb ca cb Ha Hb IH]; [apply qonly_refl|].
+          eapply qonly_trans; [apply (fn_rel_qonly _ _ _ _ _ _ Ha)|exact IH]. }
+        destruct Hq as [Es _]. rewrite Es. cbn [EventSISRel.inf_state ms_stat]. unfold fupdN. destruct (N.eqb u tgt); [reflexivity|exact A2].
+      * exists k, st, d, rd. split; [|exact C]. apply In_app_l. apply In_app_l. exact B.
 Qed.
 
 (* ---------------- every quiescent state of every run ---------------- *)
@@ -434,6 +458,7 @@ Proof.
   - exact Hvis.
   - intros u H. discriminate H.
   - intros v r Er Hr. cbn [m_init ms_rec] in Er. injection Er as <-. lra.
+  - intros u H. discriminate H.
   - intros t c u v Hin. cbn [m_init ms_q] in Hin. rewrite E1 in Hin.
     assert (K : In (MTrans (Some u) v) (map snd P')) by (apply (in_map snd) in Hin; exact Hin).
     rewrite E2 in K. apply in_map_iff in K. destruct K as [w [E _]]. discriminate E.
@@ -462,8 +487,8 @@ Proof.
     intros u ->. unfold src_ok in Hsrc. cbn [snd qtime fst] in Hsrc. exact Hsrc.
   - apply (mt_extra acc t src tgt (pop_state s rest) s1 c1 Hcore); [| |exact Hm].
     + apply (pop_tr_extra acc clock s t c src tgt rest Hc Hct Hx Eq).
-    + intros u ->. unfold src_ok in Hsrc. cbn [snd qtime fst] in Hsrc. destruct Hsrc as [_ [_ Ha]].
-      split; [apply mem_In; exact Ha|]. apply (c_q _ _ _ _ Hc t c u tgt). rewrite Eq. left. reflexivity.
+    + intros u ->. unfold src_ok in Hsrc. cbn [snd qtime fst] in Hsrc. destruct Hsrc as [HuI [_ Ha]].
+      split; [apply mem_In; exact Ha|]. split; [exact HuI|]. apply (c_q _ _ _ _ Hc t c u tgt). rewrite Eq. left. reflexivity.
 Qed.
 
 (* the run, with the property established at every head of the loop *)
